@@ -320,6 +320,12 @@ impl UntypedHandle {
     pub(crate) fn write(&self, asset: CacheEntry) {
         self.inner.write(asset);
     }
+
+    #[cfg(feature = "hot-reloading")]
+    #[inline]
+    pub(crate) fn is_dynamic(&self) -> bool {
+        self.inner.dynamic.is_some()
+    }
 }
 
 impl fmt::Debug for UntypedHandle {
